@@ -231,6 +231,11 @@ EXTRA_TEMPLATES = [
     ("typeerr", "{{ s | plus: ys }}|{{ ys | join: 1, 2 }}"),
     ("outputlimit", "{% for i in (1..50) %}xxxxxxxxxx{% endfor %}"),
     ("selfinclude", "{% include 'selfinc' %}"),
+    # the bound variable of include/render AND a keyword argument with the same root name: which of the two the bound
+    # variable is evaluated against (it is evaluated after the arguments are pushed in include) must not depend on the API
+    ("bindshadow", "{% include 'p' with s as x, s: 'special' %}|{% include 'p' for ys as x, ys: xs %}|{% include 'p' with x, x: s %}|"
+                   "{% render 'p' with s as x, s: 'special' %}|{% render 'p' for ys as x, ys: xs %}|{% include 'dir/q' with x as q, x: 'K' %}"),
+    ("stringends", "{{ s.first }}|{{ s.last }}|{{ s.size }}|{{ s[0] }}|{{ s[-1] }}|{{ e.first }}|{{ e.last }}|{{ ys.first }}|{{ ys.last }}|{{ n.first }}{{ n.last }}"),
 ]
 MORE_PARTIALS = {"selfinc": "{% include 'selfinc' %}"}
 
@@ -267,6 +272,9 @@ def env_configs(ck: Check):
     for f in CLASS_FLAGS:
         yield f, {f: (f != "suppress_blank_control_flow_blocks")}
     yield "all-flags", {f: (f != "suppress_blank_control_flow_blocks") for f in CLASS_FLAGS}
+    for a in (False, True):
+        for b in (False, True):
+            yield f"string-flags-{int(a)}{int(b)}", {"string_first_and_last": a, "string_sequences": b}
     yield "no-extra", {"extra": False}
     yield "autoescape", {"autoescape": True}
     yield "lax", {"tolerance": "LAX"}
